@@ -22,7 +22,7 @@ def pick_acc(rng):
 
 def lt_in_domain(rate, accel, T):
     r0 = rate - tq(accel, 2)
-    return T >= 1 and abs(r0 + accel) <= M and abs(r0 + accel * T) <= M
+    return T >= 1 and -B <= r0 + accel <= M and -B <= r0 + accel * T <= M          # signed 32-bit: -2^31 .. 2^31-1
 
 def gen_lt(rng):
     """(rate, accel, T) with |rate_k| <= 2^31-1 for k = 1..T; families hit the boundaries of the clear rule."""
@@ -31,12 +31,12 @@ def gen_lt(rng):
         fam = rng.choice(["zero_first_tick", "edge", "small", "uniform", "const", "boundary_total"])
         if fam == "const":
             accel = 0
-            rate = rng.choice([0, 1, -1, M, -M, rng.randint(-M, M)])
+            rate = rng.choice([0, 1, -1, M, -M, -B, rng.randint(-M, M)])
         elif fam == "small":
             accel = rng.randint(-9, 9); rate = rng.randint(-40, 40)
         else:
-            r1 = rng.randint(-M, M) if fam != "edge" else rng.choice([M, -M, M - 1, 0, 1, -1])
-            rT = rng.randint(-M, M) if fam != "edge" else rng.choice([M, -M, 0, rng.randint(-M, M)])
+            r1 = rng.randint(-M, M) if fam != "edge" else rng.choice([M, -M, -B, M - 1, 0, 1, -1])
+            rT = rng.randint(-M, M) if fam != "edge" else rng.choice([M, -M, -B, -B, 0, rng.randint(-M, M)])
             if T == 1:
                 accel = rng.choice([rng.randint(-M, M), rng.randint(-9, 9)])
             else:
@@ -62,8 +62,8 @@ def t3_in_domain(T, rate, accel, jerk):
         f = (jerk - 2 * accel) // (2 * jerk)
         for k in (f - 1, f, f + 1, f + 2):
             ks.add(max(1, min(T, k)))
-    if any(abs(t3_rate(re, accel, jerk, k)) > M for k in ks): return False
-    if abs(accel) > M or abs(accel + jerk * T) > M: return False
+    if any(not (-B <= t3_rate(re, accel, jerk, k) <= M) for k in ks): return False          # signed 32-bit: -2^31 .. 2^31-1
+    if not (-B <= accel <= M) or not (-B <= accel + jerk * T <= M): return False
     return True
 
 def gen_t3(rng):
@@ -90,6 +90,8 @@ def gen_t3(rng):
                 amax = max(1, min(M, M // max(1, T)))
                 accel = rng.randint(-amax, amax)
             re_v = rng.randint(-M // 2, M // 2)
+            if rng.random() < 0.12:            # the end-of-move rate lands exactly on an edge of the signed 32-bit range
+                edge = rng.choice([-B, -B, M, -M, -B + 1]); re_v = edge - accel * T - jerk * T * (T - 1) // 2
             if fam == "zero_first":
                 re_v = -accel
             if fam == "zero_first_two":
